@@ -180,16 +180,32 @@ fn attempt_p(files: &[Vec<u8>; 3], present: [bool; 3], buckets: u64, as_kt: Kt, 
         }
     }
     crate::runner::quiet_panics(true);
+    // three attempts through the same database object (the third through a clone of it): a refusal
+    // must not leave anything behind that makes a later attempt succeed
     let res = std::panic::catch_unwind(std::panic::AssertUnwindSafe(|| -> Result<Option<String>, String> {
         let db = abyssiniandb::open_file(&d).map_err(|e| format!("open_file: {e}"))?;
-        match open_map(&db, "x", as_kt, &Params::plain(Buckets::BucketsSize(buckets))) {
-            Err(_) => Ok(None),
-            Ok(mut m) => {
-                // the open was accepted: show what a lookup would return
-                let g = m.get(&some_key(as_kt, 0)).map(|v| v.map(|b| String::from_utf8_lossy(&b).to_string()));
-                Ok(Some(format!("{:?}", g)))
+        for round in 0..3 {
+            let dbh = db.clone();
+            let r = std::panic::catch_unwind(std::panic::AssertUnwindSafe(|| {
+                match open_map(&dbh, "x", as_kt, &Params::plain(Buckets::BucketsSize(buckets))) {
+                    Err(_) => None,
+                    Ok(mut m) => {
+                        // the open was accepted: show what a lookup would return
+                        let g = std::panic::catch_unwind(std::panic::AssertUnwindSafe(|| {
+                            m.get(&some_key(as_kt, 0)).map(|v| v.map(|b| String::from_utf8_lossy(&b).to_string()))
+                        }));
+                        Some(match g {
+                            Ok(g) => format!("{:?}", g),
+                            Err(_) => "a panic".to_string(),
+                        })
+                    }
+                }
+            }));
+            if let Ok(Some(l)) = r {
+                return Ok(Some(if round == 0 { l } else { format!("{l}, at attempt {} through the same database object", round + 1) }));
             }
         }
+        Ok(None)
     }));
     crate::runner::quiet_panics(false);
     let mut after_v: Vec<Option<Vec<u8>>> = Vec::new();
